@@ -367,12 +367,12 @@ def mapFamily : List (String × Tmpl) :=
   let incrOk (f : Fn) : Tmpl := fun c => if c.isNumber || c == .str then some f else none
   let plain (tok : String) : Stmts := s[asg e[x] tok e[call "p0" e[x]]]
   let errB : Stmts := s[ifs (asg e[x, r0] "=" e[call "p0" e[x]]) (bin "!=" (call "handleNoOp" e[r0]) nil_) s[ret e[]] s[]]
-  -- ODDITY (uniform): the `IncrErr` kernels assign (`=`) instead of accumulating (`+=`)
+  -- the `IncrErr` kernels accumulate (`+=`) like the `Incr` kernels
   let incrErrB (t : Nat) : Stmts :=
     s[var e[v t] T e[],
       ifs (asg e[v t, r0] "=" e[call "p0" e[x]]) (bin "!=" r0 nil_)
         s[ifs (set r0 (call "handleNoOp" e[r0])) (bin "!=" r0 nil_) s[ret e[]] s[]] s[],
-      set x (v t)]
+      asg e[x] "+=" e[v t]]
   let rng (f : Expr) (res : Exprs) (b : Stmts) : Fn :=
     ⟨e[f, sT], res, s[range (v 0) .absent ":=" (p 1) b, ret e[]]⟩
   let itr (f : Expr) (b : Stmts) : Fn := ⟨e[f, sT, itT], e[errT], iterLoop 0 [2] b ++ s[ret e[]]⟩
@@ -652,11 +652,13 @@ def arithDispatch (op : String) : List (String × DTmpl) :=
       s[u.stmt (kc (op ++ "SV") e[at0 (v o), v (o+1)])] s[u.stmt (kc (op ++ "VS") e[v o, at0 (v (o+1))])]
       s[u.stmt (kc ("Vec" ++ op) e[v o, v (o+1)])], ret e[]]
   [ (op, ⟨frame2 0, sup (plain (v 0) (v 1) 2 "p1" "p2")⟩),
-    -- ODDITY (uniform): the scalar-scalar incr case adds with `e.Add` whatever the operation,
-    -- and all incr / iter arms drop the kernels' error results
+    -- the scalar-scalar incr case computes `a op b` in a one-element temporary (`tmp := []T{at[0]}`; the operands are
+    -- not written) and adds it to the increment (`AddVS` over a longer increment); all incr / iter arms drop the
+    -- kernels' error results
     (op ++ "Incr", ⟨frame3 0, sup fun _ => three 3 ++ s[sw4 (v 0) (v 1)
-        s[expr (kc ("Vec" ++ op) e[v 3, v 4]), ifs skip (un "!" (v 2)) s[ret e[call "rcv0.Add" e[p 0, p 3, p 1]]] s[],
-          asg e[at0 (v 5)] "+=" e[at0 (v 3)]]
+        s[asg e[v 6] ":=" e[comp sT e[at0 (v 3)]], expr (kc ("Vec" ++ op) e[v 6, v 4]),
+          ifs skip (un "!" (v 2)) s[expr (kc "AddVS" e[v 5, at0 (v 6)]), ret e[]] s[],
+          asg e[at0 (v 5)] "+=" e[at0 (v 6)]]
         s[expr (kc (op ++ "IncrSV") e[at0 (v 3), v 4, v 5])] s[expr (kc (op ++ "IncrVS") e[v 3, at0 (v 4), v 5])]
         s[expr (kc (op ++ "Incr") e[v 3, v 4, v 5])], ret e[]]⟩),
     (op ++ "Iter", ⟨frame2 2, sup fun _ => two 2 "p1" "p2" ++ s[sw4 (v 0) (v 1)
@@ -664,9 +666,9 @@ def arithDispatch (op : String) : List (String × DTmpl) :=
         s[expr (kc (op ++ "IterSV") e[at0 (v 2), v 3, p 4])] s[expr (kc (op ++ "IterVS") e[v 2, at0 (v 3), p 3])]
         s[expr (kc (op ++ "Iter") e[v 2, v 3, p 3, p 4])], ret e[]]⟩),
     (op ++ "IterIncr", ⟨frame3 3, sup fun _ => three 3 ++ s[sw4 (v 0) (v 1)
-        s[expr (kc ("Vec" ++ op) e[v 3, v 4]),
-          ifs skip (un "!" (v 2)) s[ret e[call ("rcv0." ++ op ++ "Iter") e[p 0, p 3, p 1, p 6, p 4]]] s[],
-          asg e[at0 (v 5)] "+=" e[at0 (v 3)], ret e[]]
+        s[asg e[v 6] ":=" e[comp sT e[at0 (v 3)]], expr (kc ("Vec" ++ op) e[v 6, v 4]),
+          ifs skip (un "!" (v 2)) s[ret e[kc "AddIterVS" e[v 5, at0 (v 6), p 6]]] s[],
+          asg e[at0 (v 5)] "+=" e[at0 (v 6)], ret e[]]
         s[ret e[kc (op ++ "IterIncrSV") e[at0 (v 3), v 4, v 5, p 5, p 6]]]
         s[ret e[kc (op ++ "IterIncrVS") e[v 3, at0 (v 4), v 5, p 4, p 6]]]
         s[ret e[kc (op ++ "IterIncr") e[v 3, v 4, v 5, p 4, p 5, p 6]]]]⟩),
